@@ -874,7 +874,7 @@ def first(grammar):
                 rhs_symbol_first = set(first_sets[rhs_symbol])
                 rhs_symbol_first.discard(EMPTY)
                 if rhs_symbol_first.difference(first_sets[nonterm]):
-                    first_sets[nonterm].update(first_sets[rhs_symbol])
+                    first_sets[nonterm].update(rhs_symbol_first)
                     additions = True
                 # If current RHS symbol can't derive EMPTY
                 # this production can't add any more members of
